@@ -26,7 +26,7 @@ def _generic_replay(path):
     opts = v.get("opts", {})
     rec = driver.run_program(v["prog"], prefix, kinds=tuple(opts.get("kinds", "PTK")),
                              kill_code=opts.get("kill_code", -9),
-                             kill_when=opts.get("kill_when"))
+                             kill_when=opts.get("kill_when"), starve=opts.get("starve"))
     print(explore.render(rec))
     print("signature on file:", v.get("signature"))
     return 0
